@@ -8,6 +8,7 @@
 import JRV.Lemmas.PoolTask2
 import JRV.Lemmas.PoolC11
 import JRV.Lemmas.PoolC11Join
+import JRV.Lemmas.PoolC11Marker
 
 set_option linter.unusedSimpArgs false
 set_option linter.unusedVariables false
@@ -494,6 +495,38 @@ theorem C11_stop_measure (cfg : Config) (n : Nat) (s s' : State) (a : Action) (h
     ((∃ i, a.who = .worker i) → stopMeasure s' < stopMeasure s) ∧
     stopMeasure s' ≤ stopMeasure s + (if a.op = .callEnqueue then 8 else 0) :=
   stop_measure (CtlInv_reach hs hr) hflag hc hin hst
+
+/-- **`stop()` does not depend on the idle time-out (1): the markers cover the waiters.**  `ReachQ` is reachability in which
+    the timed `queue.put` of `stop()` / `enqueue()` gives up (queue.Full) only when the queue IS full and nothing but
+    time-outs and the environment can move ("a positive time-out expires at quiescence"; every other time-out may still
+    be taken at any moment).  In every such state in which the controlling thread is in the join loop of `stop()` (every
+    marker placed), the queue holds at least as many stop markers as there are workers waiting in `queue.get`: because
+    the `put` is BLOCKING (fact `poolQueuePuts`), on a bounded queue - smaller than the number of idle workers or not -
+    each listed worker that may still read the queue gets its marker as soon as there is room for it; when the loop is
+    cut short by Full, nobody was waiting. -/
+theorem C11_stop_markers_cover (cfg : Config) (n : Nat) (s : State) (hs : cfg.singleCtl = true)
+    (hr : C11L.ReachQ (init cfg n) s) (c : Client) (hc : s.clients[0]? = some c) (cp : List Nat)
+    (hj : copyOf c.pc = some cp) :
+    s.workers.countP C11L.waiting ≤ s.queue.countP C11L.isSentinel :=
+  C11L.stop_markers_cover cfg n s hs hr c hc cp hj
+
+/-- **`stop()` does not depend on the idle time-out (2).**  While `stop()` waits for the workers, a worker that sits in
+    `queue.get` never needs its time-out branch: the queue is not empty and its `queue.get` is enabled - for a pool built
+    with `timeout=None` or `timeout=3600` as for the default (no hypothesis on `cfg.timeoutNone`).  This is what the
+    monitor `stop-needs-idle-timeout` (harness/poolcommon.py: nobody enabled, the stopping thread parked in `Thread.join`,
+    a worker asleep in `queue.get` on an empty queue) contradicts. -/
+theorem C11_stop_waiter_enabled (cfg : Config) (n : Nat) (s : State) (hs : cfg.singleCtl = true)
+    (hr : C11L.ReachQ (init cfg n) s) (c : Client) (hc : s.clients[0]? = some c) (cp : List Nat)
+    (hj : copyOf c.pc = some cp) (j : Nat) (w : Worker) (hw : s.workers[j]? = some w) (hg : w.pc = .get) :
+    s.queue ≠ [] ∧ ∃ s', step? s ⟨.worker j, .queueGet, false⟩ = some s' :=
+  C11L.stop_waiter_enabled cfg n s hs hr c hc cp hj j w hw hg
+
+/-- Non-vacuity of the two theorems above: max = min = 2 on a queue of size 1 (smaller than the number of idle workers);
+    both workers wait, `stop()` puts a marker, worker 0 takes it, `stop()` puts the second one and enters its join loop
+    while worker 1 still waits - with its marker in the queue. -/
+example : ∃ s c cp w, C11L.ReachQ (init C11L.demoCfg 1) s ∧ s.clients[0]? = some c ∧ copyOf c.pc = some cp ∧
+    s.workers[1]? = some w ∧ w.pc = .get ∧ s.queue = [.sentinel] :=
+  ⟨C11L.demoState, _, _, _, C11L.demo_reach, rfl, rfl, rfl, rfl, rfl⟩
 
 /-- From `event.set` on the flag stays set while the controller is inside `stop()`, so `C11_stop_measure` applies to every
     state of `stop()` after its second operation. -/
